@@ -412,24 +412,39 @@ func (d *verifC14Driver) op(op string) error {
 		d.pend = append(d.pend, &verifC14Pend{wkr: chosen, uuid: u, rr: chosenRR, call: c})
 		d.out = append(d.out, fmt.Sprintf("w%d%s", wid, pre[chosen]))
 	case "sd":
+		// sd<u> / sd<u>:<e>: the `crunch-run --detach` command of u returns; e = 1: with an error
+		// (connection lost, non-zero exit, ...), which says nothing about whether the process exists
 		u, e1 := num(0)
-		if e1 != nil || len(a) != 1 {
+		if e1 != nil || len(a) > 2 {
 			return errors.New("bad op")
+		}
+		cmdErr := false
+		if len(a) == 2 {
+			var e2 error
+			cmdErr, e2 = verifC14Bool(a[1])
+			if e2 != nil {
+				return errors.New("bad op")
+			}
 		}
 		for i, p := range d.pend {
 			if p.uuid == u {
 				d.pend = append(d.pend[:i], d.pend[i+1:]...)
 				// The completion closure returns at once when its runner is no longer in
 				// wkr.starting (nothing to wait for: it has no effect whenever it runs); otherwise
-				// its last act is to put the runner into wkr.running: release the remote command
-				// and wait for that (independent of which time stamps the closure sets).
+				// it takes the runner out of wkr.starting in its one critical section: release the
+				// remote command and wait for that (independent of which time stamps the closure
+				// sets and of where it puts the runner).
 				uuid := verifC14UUID(u)
 				wp.mtx.Lock()
 				live := p.wkr.starting[uuid] == p.rr
 				wp.mtx.Unlock()
-				p.call.resp <- verifC14Resp{}
+				if cmdErr {
+					p.call.resp <- verifC14Resp{err: errors.New("ssh: connection lost")}
+				} else {
+					p.call.resp <- verifC14Resp{}
+				}
 				if live {
-					d.waitUntil(func() bool { return p.wkr.running[uuid] == p.rr })
+					d.waitUntil(func() bool { return p.wkr.starting[uuid] != p.rr })
 				} else {
 					time.Sleep(50 * time.Microsecond)
 				}
